@@ -46,6 +46,10 @@ pub struct H2Case {
     pub pre: Vec<PreFrame>,
     /// DATA after the header block on the same stream
     pub body: Option<Vec<u8>>,
+    /// adversarial: bytes appended to the encoded header block (e.g. an index that does not exist), so that HPACK
+    /// decoding fails *after* the block has already changed the decoder's state. Never set by C16 itself.
+    #[serde(default)]
+    pub hostile_tail: Vec<u8>,
 }
 
 impl H2Case {
@@ -58,7 +62,8 @@ impl H2Case {
             out.extend(p.bytes());
         }
         let mut table = DynTable::new();
-        let blk = h2::encode_block(&self.block, &mut table);
+        let mut blk = h2::encode_block(&self.block, &mut table);
+        blk.extend_from_slice(&self.hostile_tail);
         for f in h2::headers_frames(&blk, &self.framing) {
             out.extend(f);
         }
@@ -320,7 +325,7 @@ pub fn h2_case() -> impl Strategy<Value = H2Case> {
                     pre.insert(0, PreFrame::Settings(vec![(3, 100)]));
                 }
             }
-            H2Case { request, block, framing, pre, body }
+            H2Case { request, block, framing, pre, body, hostile_tail: vec![] }
         })
 }
 
